@@ -373,6 +373,12 @@ fn generate_packet_declaration<'a>(
                                     "{}: {} = field(kw_only=True, default={}.{})",
                                     field_id, type_id, type_id, t.id
                                 ));
+                            } else if let Some(ast::Tag::Other(_)) = tags.first() {
+                                // The default tag accepts any value.
+                                field_decls.push(format!(
+                                    "{}: {} = field(kw_only=True, default=0)",
+                                    field_id, type_id
+                                ));
                             }
                         }
                         ast::DeclDesc::Checksum { .. } => {
